@@ -186,6 +186,17 @@ class C09(Check):
                     env.history([base, op, ('dset', p, 'color', 1, 0, 1)] + removers[p] + [('add', S('style'), 0)],
                                 raising=raising, kind='blocks-boundary')
                     count += 1
+        # a contained object handed in a second time (known findings): the model mirrors the aliasing
+        for a, b in ((0,), (2,)), ((1, 0), (0,)), ((3, 0), (1, 1, 0)), ((0,), (0,)):
+            for raising in (True, False):
+                env.history([base, ('dset', b, 'top', 1, 0, 1), ('dshare', a, b), ('dset', a, 'color', 1, 0, 1), ('dnew', a, good, 1),
+                             ('dnew', b, good, 0)], raising=raising, kind='blocks-shared')
+                env.history([base, ('dshare', a, b), ('dnew', b, good, 0), ('ddel', a, 'top')], raising=raising, kind='blocks-shared')
+                env.history([base, ('dset', b, 'top', 1, 0, 1), ('dshareprop', a, b, 1), ('dshareprop', a, b, 1), ('ddel', b, 'top'),
+                             ('dtext', a, good)], raising=raising, kind='blocks-shared')
+                env.history([base, ('dset', b, 'top', 1, 0, 1), ('dshareprop', a, b, 1), ('ddel', a, 'top'), ('dtext', b, [])],
+                            raising=raising, kind='blocks-shared')
+                count += 4
         ctx.notes['block_histories'] = count
 
     def random_walks(self, ctx, env):
